@@ -208,6 +208,9 @@ def runCase (s : GState) : String :=
   let judge := judge ++ (match dynMsg with
     | some m => m ++ ";"
     | none => "")
+  -- the real tree must cover exactly the tokens of the input (driver_yield on the implementation side)
+  let judge := if !s.err && s.isT && real.isSome && realLeaves != symToks ++ [0]
+    then judge ++ "tree-yield-differs-from-the-token-string;" else judge
   let judge := if !s.opOK then judge ++ "opgrammar-mismatch;" else judge
   let prods := match real with
     | some d => (prodsOf (ofDump d.root)).eraseDups.length
